@@ -56,6 +56,103 @@ def only_trim_guard(body, blk, cd):
     return kinds
 
 
+def gap_rules(ctx, facts, rule="R14.2"):
+    """R14.2 as a function (re-evaluated by C16 as R16.5)"""
+    # ---------------------------------------------------------------- R14.2
+    add = facts.body(ADD)
+    dom = cfg.Dom(add)
+    pushes = [c for c in add.calls() if (c.path or "").endswith("Vec::push") and "tokens" in recv_fields(add, c)]
+    gate = None
+    for d in range(len(add.blocks)):
+        k = classify_switch(add, d)
+        if k and k[0] == "bin" and k[1] in ("Lt", "Gt"):
+            a, b2 = k[2], k[3]
+            sa, sb = term_str(add, a), term_str(add, b2)
+            if "last_token_location" in sa + sb and "start" in sa + sb:
+                gate = (d, k)
+    if gate is None or len(pushes) < 2:
+        raise AnchorMissing("TokenBuffer::add: cannot find the gap test / the pushes of gap token and token")
+    d, k = gate
+    # pushes of the token that was handed in (parameter 2) vs. pushes of a token built here (the gap token)
+    def pushes_param(c):
+        rp = raw_operand_place(add, c.args[1]) if len(c.args) > 1 else None
+        return bool(rp) and rp[0] == 2
+    all_tok_push = [c for c in pushes if pushes_param(c)]
+    # every way of buffering the token runs the gap detection first
+    undetected = [c for c in all_tok_push if not dom.dominates(d, c.bb)]
+    ctx.check(not undetected, rule, "TokenBuffer::add|gap-test-before-every-token-push",
+              "every push of the token is dominated by the gap test",
+              "the token is buffered at line(s) %s on a path that skips the gap test: unmatched text in front of such a token "
+              "(e.g. before end of input) is dropped from the token sequence and the tree" % [c.line for c in undetected],
+              where(add, undetected[0].line if undetected else None))
+    pushes = [c for c in pushes if c not in undetected]
+    if len(pushes) != 2:
+        raise AnchorMissing("TokenBuffer::add: expected one gap push and one token push behind the gap test, found %d" % len(pushes))
+    gap_push = [c for c in pushes if only_via_edge(add, d, {v for v, _t in add.switch_edges(d) if v != 0}, c.bb)]
+    tok_push = [c for c in pushes if c not in gap_push]
+    ok2 = len(gap_push) == 1 and len(tok_push) == 1 and tok_push[0].bb in cfg.reachable_from(add, gap_push[0].bb) \
+        and gap_push[0].bb not in cfg.reachable_from(add, tok_push[0].bb)
+    ctx.check(ok2, rule, "TokenBuffer::add|gap-before-token",
+              "on the `last_token_location < start` edge the gap token is pushed before the token itself",
+              "the gap token is not pushed (before the token) exactly when there is a gap", where(add))
+    # the gap test is the *only* condition of the gap token (no "a token was seen before" side condition: unmatched text at the
+    # very start of the input is a gap too)
+    if gap_push:
+        cdeps = control_dependence_no_errors(add)
+        others = sorted({a for a, _s, _k in transitive_control_deps(add, gap_push[0].bb, cd=cdeps) if a != d})
+        ctx.check(not others, rule, "TokenBuffer::add|gap-test-unconditional",
+                  "the gap token depends on the comparison last_token_location < start alone",
+                  "the gap token additionally depends on the branch(es) at line(s) %s: a gap that does not satisfy that side "
+                  "condition (e.g. unmatched text before the first token) is dropped from the token sequence and the tree"
+                  % [add.line_of_block(a) for a in others], where(add, gap_push[0].line))
+    # the token itself is pushed on every path
+    pd = cfg.PostDom(add)
+    ctx.check(bool(tok_push) and pd.postdominates(tok_push[0].bb, 0), rule, "TokenBuffer::add|token-always-buffered",
+              "the token is pushed on every path", "TokenBuffer::add can drop the token", where(add))
+    # slice bounds of the gap text
+    w = [c for c in add.calls() if c.path == "parol_runtime::lexer::token::Token::with"]
+    slice_ok = False
+    tt_ok = False
+    if len(w) == 1:
+        tt = operand_term(add, w[0].args[1])
+        tt_ok = tt[0] == "const" and (tt[3] or "").endswith("INVALID_TOKEN")
+        for c in add.calls():
+            if (c.path or "").endswith("Index::index") and "str" in (c.self_ty or ""):
+                r = raw_operand_place(add, c.args[1])
+                dd = single_def(add, r[0]) if r else None
+                if dd and dd[0] == "assign" and dd[3][0] == "agg" and dd[3][2] == "std::ops::Range":
+                    # the *selected* field of each bound (the printed term of a struct literal mentions all its fields)
+                    def last_field(t):
+                        return t[2][-1] if t[0] in ("path", "proj") and t[2] else None
+                    t0, t1 = operand_term(add, dd[3][4][0]), operand_term(add, dd[3][4][1])
+                    slice_ok = last_field(t0) == "start" and last_field(t1) == "end" and \
+                        (t0[1] == t1[1] if t0[0] == t1[0] else False)
+    ctx.check(tt_ok and slice_ok, rule, "TokenBuffer::add|gap-token-text-and-type",
+              "the gap token has type INVALID_TOKEN and the text input[gap.start..gap.end]",
+              "the gap token is not (INVALID_TOKEN, input[gap.start..gap.end])", where(add))
+    lw = [(bi, line) for bi, si, p, rv, line, mac in add.assigns()
+          if isinstance(p[-1], list) and p[-1][0] == "f" and p[-1][2] == "last_token_location"]
+    upd = False
+    for bi, line in lw:
+        st = [s for s in add.stmts(bi) if s[0] == "a" and isinstance(s[1][-1], list) and s[1][-1][2] == "last_token_location"]
+        rvx = st[0][2] if st else None
+        if rvx and rvx[0] == "agg" and rvx[3] == "Some" and rvx[4]:
+            rvx = ["use", rvx[4][0]]          # Some(token.location.end): an Option-typed tracker is the same update
+        src = raw_operand_place(add, rvx[1]) if rvx and rvx[0] == "use" else None
+        if src and len(src) == 1:
+            sd = single_def(add, src[0])
+            if sd and sd[0] == "assign" and sd[3][0] == "agg" and sd[3][3] == "Some" and sd[3][4]:
+                src = raw_operand_place(add, sd[3][4][0])
+        names = [e[2] for e in src[1:] if isinstance(e, list) and e[0] == "f"] if src else []
+        if names[-2:] == ["location", "end"] and pd.postdominates(bi, 0):
+            upd = True
+    ctx.check(upd, rule, "TokenBuffer::add|last-location-updated",
+              "last_token_location := token.location.end on every path",
+              "last_token_location is not updated from token.location.end on every path (gaps would be computed from a "
+              "stale offset)", where(add))
+
+
+
 def check(ctx):
     facts = ctx.facts()
     # ---------------------------------------------------------------- R14.1
@@ -92,83 +189,7 @@ def check(ctx):
     ctx.check(okt, "R14.1", "ll|consumed-token-into-tree", "the matched look-ahead token is added to the tree in the T arm",
               "the LL T arm does not add the matched token to the parse tree", where(pi))
 
-    # ---------------------------------------------------------------- R14.2
-    add = facts.body(ADD)
-    dom = cfg.Dom(add)
-    pushes = [c for c in add.calls() if (c.path or "").endswith("Vec::push") and "tokens" in recv_fields(add, c)]
-    gate = None
-    for d in range(len(add.blocks)):
-        k = classify_switch(add, d)
-        if k and k[0] == "bin" and k[1] in ("Lt", "Gt"):
-            a, b2 = k[2], k[3]
-            sa, sb = term_str(add, a), term_str(add, b2)
-            if "last_token_location" in sa + sb and "start" in sa + sb:
-                gate = (d, k)
-    if gate is None or len(pushes) != 2:
-        raise AnchorMissing("TokenBuffer::add: cannot find the gap test / two pushes")
-    d, k = gate
-    gap_push = [c for c in pushes if only_via_edge(add, d, {v for v, _t in add.switch_edges(d) if v != 0}, c.bb)]
-    tok_push = [c for c in pushes if c not in gap_push]
-    ok2 = len(gap_push) == 1 and len(tok_push) == 1 and tok_push[0].bb in cfg.reachable_from(add, gap_push[0].bb) \
-        and gap_push[0].bb not in cfg.reachable_from(add, tok_push[0].bb)
-    ctx.check(ok2, "R14.2", "TokenBuffer::add|gap-before-token",
-              "on the `last_token_location < start` edge the gap token is pushed before the token itself",
-              "the gap token is not pushed (before the token) exactly when there is a gap", where(add))
-    # the gap test is the *only* condition of the gap token (no "a token was seen before" side condition: unmatched text at the
-    # very start of the input is a gap too)
-    if gap_push:
-        cdeps = control_dependence_no_errors(add)
-        others = sorted({a for a, _s, _k in transitive_control_deps(add, gap_push[0].bb, cd=cdeps) if a != d})
-        ctx.check(not others, "R14.2", "TokenBuffer::add|gap-test-unconditional",
-                  "the gap token depends on the comparison last_token_location < start alone",
-                  "the gap token additionally depends on the branch(es) at line(s) %s: a gap that does not satisfy that side "
-                  "condition (e.g. unmatched text before the first token) is dropped from the token sequence and the tree"
-                  % [add.line_of_block(a) for a in others], where(add, gap_push[0].line))
-    # the token itself is pushed on every path
-    pd = cfg.PostDom(add)
-    ctx.check(bool(tok_push) and pd.postdominates(tok_push[0].bb, 0), "R14.2", "TokenBuffer::add|token-always-buffered",
-              "the token is pushed on every path", "TokenBuffer::add can drop the token", where(add))
-    # slice bounds of the gap text
-    w = [c for c in add.calls() if c.path == "parol_runtime::lexer::token::Token::with"]
-    slice_ok = False
-    tt_ok = False
-    if len(w) == 1:
-        tt = operand_term(add, w[0].args[1])
-        tt_ok = tt[0] == "const" and (tt[3] or "").endswith("INVALID_TOKEN")
-        for c in add.calls():
-            if (c.path or "").endswith("Index::index") and "str" in (c.self_ty or ""):
-                r = raw_operand_place(add, c.args[1])
-                dd = single_def(add, r[0]) if r else None
-                if dd and dd[0] == "assign" and dd[3][0] == "agg" and dd[3][2] == "std::ops::Range":
-                    # the *selected* field of each bound (the printed term of a struct literal mentions all its fields)
-                    def last_field(t):
-                        return t[2][-1] if t[0] in ("path", "proj") and t[2] else None
-                    t0, t1 = operand_term(add, dd[3][4][0]), operand_term(add, dd[3][4][1])
-                    slice_ok = last_field(t0) == "start" and last_field(t1) == "end" and \
-                        (t0[1] == t1[1] if t0[0] == t1[0] else False)
-    ctx.check(tt_ok and slice_ok, "R14.2", "TokenBuffer::add|gap-token-text-and-type",
-              "the gap token has type INVALID_TOKEN and the text input[gap.start..gap.end]",
-              "the gap token is not (INVALID_TOKEN, input[gap.start..gap.end])", where(add))
-    lw = [(bi, line) for bi, si, p, rv, line, mac in add.assigns()
-          if isinstance(p[-1], list) and p[-1][0] == "f" and p[-1][2] == "last_token_location"]
-    upd = False
-    for bi, line in lw:
-        st = [s for s in add.stmts(bi) if s[0] == "a" and isinstance(s[1][-1], list) and s[1][-1][2] == "last_token_location"]
-        rvx = st[0][2] if st else None
-        if rvx and rvx[0] == "agg" and rvx[3] == "Some" and rvx[4]:
-            rvx = ["use", rvx[4][0]]          # Some(token.location.end): an Option-typed tracker is the same update
-        src = raw_operand_place(add, rvx[1]) if rvx and rvx[0] == "use" else None
-        if src and len(src) == 1:
-            sd = single_def(add, src[0])
-            if sd and sd[0] == "assign" and sd[3][0] == "agg" and sd[3][3] == "Some" and sd[3][4]:
-                src = raw_operand_place(add, sd[3][4][0])
-        names = [e[2] for e in src[1:] if isinstance(e, list) and e[0] == "f"] if src else []
-        if names[-2:] == ["location", "end"] and pd.postdominates(bi, 0):
-            upd = True
-    ctx.check(upd, "R14.2", "TokenBuffer::add|last-location-updated",
-              "last_token_location := token.location.end on every path",
-              "last_token_location is not updated from token.location.end on every path (gaps would be computed from a "
-              "stale offset)", where(add))
+    gap_rules(ctx, facts)
 
     # ---------------------------------------------------------------- R14.3
     n_loc = 0
